@@ -49,6 +49,8 @@ type Bounds struct {
 	Samples      int    `json:"samples"`
 	OneShot      bool   `json:"oneshot"` // assertion queries in a fresh solver process
 	OneShotAll   bool   `json:"oneshot_all"`
+	IfConv       bool   `json:"ifconv"` // merge pure diamonds into ite terms
+	XorNF        bool   `json:"xornf"`  // xor normal form for GF(2)-linear terms
 	Only         string `json:"only"` // regexp restricting harness names for this tier
 	Skip         string `json:"skip"`
 }
@@ -68,6 +70,7 @@ type Check struct {
 	Thorough    Bounds     `json:"thorough"`
 	Overrides   []Override `json:"overrides"`
 	NoInit      []string   `json:"no_init"`
+	ForceInit   []string   `json:"force_init"`
 	Summarize   []string   `json:"summarize"`
 	AlsoPrefixes []string  `json:"also_harness_prefixes"` // harness functions of another property's harness file that this check also runs
 	FuncStubs   map[string]string `json:"func_stubs"`
@@ -373,6 +376,12 @@ func merge(b Bounds, o Bounds) Bounds {
 	if o.OneShotAll {
 		b.OneShotAll = true
 	}
+	if o.IfConv {
+		b.IfConv = true
+	}
+	if o.XorNF {
+		b.XorNF = true
+	}
 	if o.LoopBound != 0 {
 		b.LoopBound = o.LoopBound
 	}
@@ -386,12 +395,14 @@ func toConfig(b Bounds, c *Check, tier string) *sx.Config {
 	cfg := &sx.Config{
 		MaxSteps: b.MaxSteps, MaxPaths: b.MaxPaths, MaxIndexFork: b.MaxIndexFork, WallS: b.WallS, TimeoutMs: b.TimeoutMs,
 		Workers: b.Workers, Solver: b.Solver, Solver2: b.Solver2, LoopBound: b.LoopBound, SampleModels: b.Samples,
-		NoInit: c.NoInit, Summarize: c.Summarize, FuncStubs: c.FuncStubs, Thorough: tier == "thorough",
+		NoInit: c.NoInit, ForceInit: c.ForceInit, Summarize: c.Summarize, FuncStubs: c.FuncStubs, Thorough: tier == "thorough",
 	}
 	if b.Mode == "int" {
 		cfg.Mode = term.ModeInt
 	}
 	cfg.NoModelGuide = os.Getenv("VERIF_MODEL_GUIDE") == "" // measured: 11-17% fewer queries, no wall-clock gain (get-value cost); off unless asked for
+	cfg.IfConv = b.IfConv
+	cfg.XorNF = b.XorNF
 	cfg.OneShot = b.OneShot || b.OneShotAll
 	cfg.SolverAlt = b.SolverAlt
 	cfg.OneShotAll = b.OneShotAll
